@@ -75,6 +75,20 @@ Theorem C13_cross_join_partition_indep : forall ls rs Lp Lp' Rp Rp',
   df_cross_join (ls, Lp) (rs, Rp) = df_cross_join (ls, Lp') (rs, Rp').
 Proof. exact df_cross_join_partition_indep. Qed.
 
+(* ---- evaluating the same joined DataFrame again (collect, count, collect, rdd.collect, a derived filter or
+        select, toLocalIterator ...).  DEFINITIONAL in the model: the joined DataFrame is the value [df_join ..],
+        actions are pure and hand the object on unchanged, so the outcome of an action does not depend on the
+        actions run before it and every evaluation sees the rows of C13_join_rows.  That the IMPLEMENTATION has
+        this property (no state drained by the first evaluation) is not proved here; the correspondence run and
+        the oracle evaluate every joined DataFrame seven times on the same object. *)
+Theorem C13_reevaluation_history_free : forall j pre a,
+  run_session j (pre ++ [a]) = run_session j pre ++ [snd (run_action j a)].
+Proof. exact run_session_history_free. Qed.
+Theorem C13_reevaluation_outcomes : forall j acts o,
+  In o (run_session j acts) ->
+  o = ORows j \/ o = OCount (match j with Ok (_, rows) => Ok (length rows) | Err e => Err e end).
+Proof. exact run_session_outcomes. Qed.
+
 (* ---- the RDD join family under the DataFrame join (rdd.py), for any key type with a decidable
         equality and any values: each method is, as a multiset, its nested loop over the pair lists *)
 Theorem C13_rdd_join_family : forall (K V W : Type) (keqb : K -> K -> bool),
